@@ -610,6 +610,48 @@ static void d35_case()
     }
 }
 
+// C18 on library allocators (they enforce their own figures): a fallback_allocator of two pools, in both orders, plain and wrapped --
+// a node request one byte above the reported max_node_size() must not succeed, one of exactly that size must
+template <class A>
+static void maxima_probe(const char* what, A& alloc)
+{
+    using Tr = allocator_traits<A>;
+    std::size_t mx = Tr::max_node_size(alloc);
+    for (std::size_t req : {mx, mx + 1})
+    {
+        void* p = nullptr;
+        try
+        {
+            p = Tr::allocate_node(alloc, req, 8);
+        }
+        catch (std::exception&)
+        {
+        }
+        if (p)
+            Tr::deallocate_node(alloc, p, req, 8);
+        if (p && req > mx)
+            fail(fmt("%s: max_node_size() = %zu but allocate_node(%zu, 8) succeeded", what, mx, req));
+        if (!p && req == mx)
+            fail(fmt("%s: max_node_size() = %zu but allocate_node(%zu, 8) failed on a fresh allocator", what, mx, req));
+    }
+}
+static void fallback_maxima_case()
+{
+    {
+        fallback_allocator<memory_pool<>, memory_pool<>> f(memory_pool<>(32, 4096), memory_pool<>(128, 4096));
+        maxima_probe("fallback_allocator<pool(32), pool(128)>", f);
+    }
+    {
+        fallback_allocator<memory_pool<>, memory_pool<>> f(memory_pool<>(128, 4096), memory_pool<>(32, 4096));
+        maxima_probe("fallback_allocator<pool(128), pool(32)>", f);
+    }
+    {
+        using F = fallback_allocator<memory_pool<>, memory_pool<>>;
+        aligned_allocator<F> a(8, F(memory_pool<>(48, 4096), memory_pool<>(16, 4096)));
+        maxima_probe("aligned_allocator<fallback_allocator<pool(48), pool(16)>>", a);
+    }
+}
+
 // block-level tracking (tracked_block_allocator / deeply_tracked_allocator): growth and shrinking events against the
 // calls that reach the upstream allocator -- every successful block operation is seen exactly once, with its address and size
 struct BlkEvent
@@ -849,6 +891,7 @@ int main(int argc, char** argv)
     mra_cases<L0n>("L 0 n", g);
     d24_case();
     d35_case();
+    fallback_maxima_case();
     block_tracking_case(g, thorough);
     for (auto& f : failures)
         std::printf("oracle-fail %s\n", f.c_str());
